@@ -36,7 +36,7 @@ def run_shard(spec, rec):
     toggled = JSONPathEnvironment()
     for _ in range(spec["n"]):
         q = gen.query(root="$", nofilter=True)
-        doc = D.doc_for(R, q, maxdepth=R.choice([3, 4, 5]), maxwidth=R.choice([3, 4, 5]))
+        doc = D.doc_for(R, q, maxdepth=R.choice([3, 4, 5]), maxwidth=R.choice([3, 4, 5]), feat=rec.features)
         text = G.render(q, R, feat=rec.features)
         via = R.choice(["find", "finditer", "finditer"])
         if R.random() < 0.25:
